@@ -16,24 +16,37 @@ Only the vocabulary (`Layer`, `Obj`, the priority of a layer kind) is shared wit
 namespace OdxVerif.Inherit
 open OdxVerif.Gen (LayerKind)
 
-/-- an object offered by a parent of the given priority -/
+/-- the order ODX puts on layer types for value inheritance (ISO 22901-1 §7.3.2.4): a protocol is
+    overridden by a functional group, that by a base variant, that by an ECU variant; objects of an
+    ECU-SHARED-DATA layer override those of all other parents. Written down here independently of the
+    table in `diaglayertype.py`; `C09_priority_table` states that the two agree. -/
+def odxRank : LayerKind → Nat
+  | .protocol => 0
+  | .functionalGroup => 1
+  | .baseVariant => 2
+  | .ecuVariant => 3
+  | .ecuSharedData => 4
+
+/-- an object offered by a parent of the given type -/
 structure Offer where
-  prio : Nat
+  kind : LayerKind
   obj : Obj
 deriving DecidableEq, Repr
 
-/-- the offers no other offer beats -/
-def topOffers (os : List Offer) : List Offer :=
-  os.filter fun a => os.all fun b => b.prio ≤ a.prio
+/-- the offers no other offer beats (`pr` ranks the layer types) -/
+def topOffers (pr : LayerKind → Nat) (os : List Offer) : List Offer :=
+  os.filter fun a => os.all fun b => pr b.kind ≤ pr a.kind
 
 /-- two offers of highest priority are different objects -/
-def clash (os : List Offer) : Bool :=
-  (topOffers os).any fun a => (topOffers os).any fun b => a.obj ≠ b.obj
+def clash (pr : LayerKind → Nat) (os : List Offer) : Bool :=
+  (topOffers pr os).any fun a => (topOffers pr os).any fun b => a.obj ≠ b.obj
 
 def localObj (locals : List Obj) (n : Name) : Option Obj := locals.find? fun o => o.name = n
 
 /-- lookup by short name in a computed view (`NamedItemList` access) -/
 def lookup (objs : List Obj) (n : Name) : Option Obj := objs.find? fun o => o.name = n
+
+variable (pr : LayerKind → Nat)
 
 mutual
 /-- the object named `n` that layer `L` shows -/
@@ -43,14 +56,14 @@ def visible : Layer → Name → Option Obj
     | some o => some o
     | none =>
       if kind = .ecuSharedData then none
-      else ((topOffers (offersOf parents n)).head?).map (·.obj)
+      else ((topOffers pr (offersOf parents n)).head?).map (·.obj)
 /-- what the referenced parents offer for the name `n`, in declaration order -/
 def offersOf : List (Layer × List Name) → Name → List Offer
   | [], _ => []
   | (p, notInherited) :: rest, n =>
     (if notInherited.contains n then []
      else match visible p n with
-       | some o => [⟨p.kind.prio, o⟩]
+       | some o => [⟨p.kind, o⟩]
        | none => []) ++ offersOf rest n
 end
 
@@ -65,7 +78,7 @@ end
 
 /-- layer `L` itself cannot settle the name `n` -/
 def conflictAt (L : Layer) (n : Name) : Bool :=
-  L.kind ≠ .ecuSharedData && (localObj L.locals n).isNone && clash (offersOf L.parents n)
+  L.kind ≠ .ecuSharedData && (localObj L.locals n).isNone && clash pr (offersOf pr L.parents n)
 
 mutual
 /-- some layer of the hierarchy has an unsettled name -/
@@ -73,7 +86,7 @@ def conflict : Layer → Bool
   | .mk _ kind locals parents =>
     if kind = .ecuSharedData then false
     else conflictIn parents ||
-      (allNamesIn parents).any fun n => (localObj locals n).isNone && clash (offersOf parents n)
+      (allNamesIn parents).any fun n => (localObj locals n).isNone && clash pr (offersOf pr parents n)
 def conflictIn : List (Layer × List Name) → Bool
   | [] => false
   | (p, _) :: rest => conflict p || conflictIn rest
